@@ -666,6 +666,55 @@ def contradicted_edges(fn, terms, assume):
                     ok = (v == lab[2]) if k == 'switch' else (v in lab[2]) if k == 'switch-in' else (v not in lab[2])
                     if not ok:
                         removed.append((b.id, s.id))
+    # tests of boolean flags kept in locals (`ok = (m == 4) || (m == 8); if (!ok) error`): the flag's possible values under the
+    # assumption follow from its phi -- constants on edges still feasible, comparisons of assumed terms evaluated.  Fixpoint.
+    def flag_values(phi, rem, reach, depth=0):
+        vals = set()
+        for bid, v in phi.incoming:
+            if (bid, phi.block.id) in rem or bid not in reach:
+                continue
+            kv = const_of(v)
+            if kv is not None:
+                vals.add(1 if kv else 0)
+                continue
+            tv = norm_atom(terms.term(v))
+            if tv[0] == 'cmp' and tv[2] in assume and tv[3][0] == 'const':
+                vals.add(1 if _eval_pred(tv[1], assume[tv[2]], tv[3][1]) else 0)
+                continue
+            sv = strip_casts(v)
+            if sv.k == 'i' and sv.inst.op == 'phi' and sv.inst.block.id not in fn.loops and depth < 4:
+                sub = flag_values(sv.inst, rem, reach, depth + 1)
+                if sub is None:
+                    return None
+                vals |= sub
+                continue
+            return None
+        return vals
+    changed = True
+    while changed:
+        changed = False
+        rem = set(removed)
+        reach = fn.reachable(fn.entry, removed=rem)
+        for b in fn.blocks:
+            if b.id not in reach:
+                continue
+            for s, lab in out_edges(b):
+                if lab is None or lab[0] != 'br' or (b.id, s.id) in rem:
+                    continue
+                for a in cond_atoms(terms, lab[1], lab[2]):
+                    a = norm_atom(a)
+                    if a[0] == 'cmp' and a[1] in ('eq', 'ne') and a[2][0] == 'phi' and a[3][0] == 'const':
+                        phi = fn.insts.get(a[2][1])
+                        if phi is None or phi.op != 'phi' or phi.block.id in fn.loops:
+                            continue
+                        vals = flag_values(phi, rem, reach)
+                        if vals is None:
+                            continue
+                        c = 1 if a[3][1] else 0
+                        if not any((x == c) == (a[1] == 'eq') for x in vals):
+                            removed.append((b.id, s.id))
+                            rem.add((b.id, s.id))
+                            changed = True
     return removed
 
 
